@@ -20,6 +20,8 @@ def main(tier, replay):
         jobs.append({'name': 'unpack-w%d' % w, 'pkg': PKG, 'func': 'HarnessUnpack', 'args': [w, 0]})
         jobs.append({'name': 'sens-pack-w%d' % w, 'pkg': PKG, 'func': 'HarnessPack', 'args': [w, 1], 'expect': 'spec layout'})
         jobs.append({'name': 'sens-unpack-w%d' % w, 'pkg': PKG, 'func': 'HarnessUnpack', 'args': [w, 1], 'expect': 'spec order'})
+    for w in (1, 2, 3, 4):
+        jobs.append({'name': 'held-w%d' % w, 'pkg': PKG, 'func': 'HarnessHeld', 'args': [w, 1 + w % 4]})
     jobs.append({'name': 'vacuity-twin', 'pkg': PKG, 'func': 'HarnessVacuity', 'args': [2], 'expect': 'vacuity'})
     c.engine(REPO, [PKG], ov, jobs, ctx=ctx, record=50 if tier == 'thorough' else 0)
     # engine vs native build on concrete pseudo-random groups (observations: packed bytes, unpacked values)
@@ -45,6 +47,7 @@ def main(tier, replay):
         for w in (1, 2, 3, 4):
             gjobs.append({'name': 'gen-pack-w%d' % w, 'pkg': 'scratch/bitpackgen', 'func': 'HarnessPack', 'args': [w, 0]})
             gjobs.append({'name': 'gen-unpack-w%d' % w, 'pkg': 'scratch/bitpackgen', 'func': 'HarnessUnpack', 'args': [w, 0]})
+            gjobs.append({'name': 'gen-held-w%d' % w, 'pkg': 'scratch/bitpackgen', 'func': 'HarnessHeld', 'args': [w, 1 + w % 4]})
         c.engine(mod, ['scratch/bitpackgen'], {}, gjobs, ctx={'replay': 'scratch_pkg', 'pkgdir': gd, 'pkgname': 'bitpackgen'})
 
     c.bounds = {'widths': [1, 2, 3, 4], 'values': 'all 8 input bytes free (2^64 groups per width, masked form)', 'bytes': 'all w-byte groups free',
@@ -53,4 +56,4 @@ def main(tier, replay):
                      'regenerated code: output of `go run ./cmd/bitpackgen -maxwidth 4` from the working tree is checked in addition to the checked-in file']
     c.extra['exhaustive'] = True
     c.finish('one job per (function, width); each job is ONE symbolic path whose inputs are free bit-vector variables, so a discharged obligation covers every 8-tuple / every w-byte group; a job is non-trivial when at least one obligation needed the solver',
-             'pack1..4/unpack1..4 + Pack/Unpack dispatch executed from SSA; obligations: length, prefix kept, LSB-first little-endian layout vs. a 32-bit accumulator reference, unpack∘pack = id (masked), pack∘unpack = id')
+             'pack1..4/unpack1..4 + Pack/Unpack dispatch executed from SSA; obligations: results held across later calls are unchanged, inputs untouched, length, prefix kept, LSB-first little-endian layout vs. a 32-bit accumulator reference, unpack∘pack = id (masked), pack∘unpack = id')
